@@ -1,6 +1,6 @@
 (* diagnostics for the C16 check: printed, never used as a theorem *)
 From Coq Require Import List String Bool.
 From FI Require Import AutoTraits AutoTraitsSpec TypesGen.
-Eval vm_compute in (unsound structs impls).
-Eval vm_compute in (incomplete structs impls).
-Eval vm_compute in (unpinned_futures structs impls).
+Eval vm_compute in ("UNSOUND"%string, unsound_summary structs impls).
+Eval vm_compute in ("INCOMPLETE"%string, incomplete_summary structs impls).
+Eval vm_compute in ("UNPINNED"%string, unpinned_futures structs impls).
